@@ -185,7 +185,7 @@ def _requirements(tier):
         "station:south": 50 * k, "station:west": 50 * k, "station:high-lat": 100 * k, "station:equatorial-axes": 5 * k,
         "orbit-frame:None": 100 * k, "orbit-frame:QSW": 100 * k, "orbit-frame:TNW": 100 * k,
         "static-lof:evaluated": 100 * k, "orbit-parent:EME2000": 100 * k, "orbit-parent:MOD": 100 * k, "orbit-parent:TEME": 100 * k,
-        "body-frame:Moon": 100 * k, "body-frame:Sun": 100 * k, "forms-across:pairs": 300 * k, "forms-across:return-judged": 100 * k,
+        "history:names-registered-again": 100 * k, "body-frame:Moon": 100 * k, "body-frame:Sun": 100 * k, "forms-across:pairs": 300 * k, "forms-across:return-judged": 100 * k,
         "forms-across:to-body:Moon": 50 * k, "forms-across:to-body:Sun": 50 * k, "forms-across:to-body:None": 50 * k,
         "date:day-start": 10 * k, "date:day-end": 10 * k, "date:eqeq-switch": 5 * k, "date:table-edge": 8 * k,
         "branch:eqeq-kinematic-terms:on": 20 * k, "branch:eqeq-kinematic-terms:off": 20 * k,
@@ -475,8 +475,10 @@ def forms_across_centres(ctx, idx, rng, st, date, frames, wit):
                       msg=f"{route}: velocity after the return trip differs")
 
 
-def make_frames(ctx, job, idx, rng, st, day, sec):
-    """2 stations + 3 orbit-attached frames, uniquely named."""
+def make_frames(ctx, job, idx, rng, st, day, sec, like=None):
+    """2 stations + 3 orbit-attached frames, uniquely named.  `like` = description of an earlier call for the same case:
+    the same names are then registered AGAIN with other coordinates / reference orbits, under the same parents (the
+    graph keeps its shape; re-registering a name under another parent is C20's subject and a known finding there)."""
     from beyond.frames.stations import create_station
     from beyond.frames.frames import orbit2frame, get_frame
     from beyond.orbits import Orbit
@@ -492,6 +494,8 @@ def make_frames(ctx, job, idx, rng, st, day, sec):
     sel = rng.random()
     equatorial = sel < 0.15
     parent = "ITRF" if sel < 0.7 else ("PEF" if sel < 0.85 else "TIRF")
+    if like is not None:
+        parent, equatorial = like["stations"][0][3], like["stations"][0][4]
     fa = create_station(f"S{tag}a", (lat, lon, alt), parent_frame=get_frame(parent), equatorial=equatorial)
     out.append(FI(fa.name, fa, "station-eq" if equatorial else "station", fixed=not equatorial,
                   info=dict(lat=lat, lon=lon, alt=alt, parent=parent, equatorial=equatorial)))
@@ -1095,6 +1099,27 @@ def run_case(ctx, job, idx, rng, st):
     check_absolute(ctx, st, day, sec, ins, maps, wit)
     check_centres(ctx, st, date, day, sec, frames, maps, wit)
     forms_across_centres(ctx, idx, rng, st, date, frames, wit)
+
+    # ---------------- history: the same NAMES registered again with other geometry (stations, orbit-attached frames), at
+    # the same instant: whatever was computed for the old frames of that name must not come back
+    if idx % 3 == 0:
+        dyn2, descr2 = make_frames(ctx, job, idx, rng, st, day, sec, like=descr)
+        ctx.count("history:names-registered-again", len(dyn2))
+        wit2 = dict(wit, history="frame names registered a second time with other parameters", second=descr2)
+        frames2 = st["builtin"] + dyn2 + st["bodies"]
+        maps2 = {}
+        for d in dyn2:
+            req = [f for f in builtin if f.name == d.info["parent"]]
+            for f in {id(x): x for x in rng.sample(builtin, 3) + req}.values():
+                for a, b in ((d, f), (f, d)):
+                    m = amap(ctx, date, a, b, wit2)
+                    if m is not None:
+                        maps2[(a.name, b.name)] = m
+                        ctx.count("alg:pairs-mixed")
+                        check_structure(ctx, a, b, m, wit2)
+        check_inverse_and_triples(ctx, frames2, maps2, xref, wit2)
+        check_centres(ctx, st, date, day, sec, frames2, maps2, wit2)
+        frames, dyn = frames2, dyn2  # the kinematic monitors below run on the frames that now own the names
 
     # ---------------- kinematic pairs
     by = {f.name: f for f in frames}
